@@ -347,10 +347,17 @@ def run() -> int:
             rep.add_violation(Violation(PROP, [f"transport-nodes {g.key()} Z={cex['Z']} W={cex['W']}"], f"get_nodes_to_transport on {g.key()} with experiment Z={cex['Z']} observing W={cex['W']} returned {cex['out']}; the documented construction (De(Z) - W) u (district(W) - An(W) without edges into Z) gives {cex['want']}: missing {cex.get('missing')}", {"property": PROP, "rsi": True, "graph": cex["g"], "Z": cex["Z"], "W": cex["W"], "hashseed": hashseed()}))
     if not rep.samples:
         rep.add_sample({"note": "no verified estimand mentioning a source domain in this run"})
+    from .. import history_runs
+
+    history_runs.run(rep, PROP)
     return rep.finish()
 
 
 def replay(payload: dict) -> int:
+    if payload.get("kind") == "history":
+        from .. import history_runs
+
+        return history_runs.replay(PROP, payload)
     if payload.get("rsi"):
         from .c05_rsi import native_check
 
